@@ -7,7 +7,7 @@ use unsafe_cell_slice::UnsafeCellSlice;
 
 use crate::{
     array_subset::{ArraySubset, IncompatibleArraySubsetAndShapeError},
-    byte_range::extract_byte_ranges_concat_unchecked,
+    byte_range::extract_byte_ranges_concat,
     metadata::DataTypeSize,
 };
 
@@ -215,6 +215,7 @@ impl<'a> ArrayBytes<'a> {
     ///
     /// # Errors
     /// Returns a [`CodecError::InvalidArraySubsetError`] if the `array_shape` is incompatible with `subset`.
+    /// Returns a [`CodecError::InvalidByteRangeError`] if fixed length bytes are shorter than `array_shape` requires.
     ///
     /// # Panics
     /// Panics if indices in the subset exceed [`usize::MAX`].
@@ -260,7 +261,7 @@ impl<'a> ArrayBytes<'a> {
             ArrayBytes::Fixed(bytes) => {
                 let byte_ranges =
                     subset.byte_ranges(array_shape, data_type.fixed_size().unwrap())?;
-                let bytes = unsafe { extract_byte_ranges_concat_unchecked(bytes, &byte_ranges) };
+                let bytes = extract_byte_ranges_concat(bytes, &byte_ranges)?;
                 Ok(ArrayBytes::new_flen(bytes))
             }
         }
